@@ -216,7 +216,8 @@ def main(argv):
                 inconclusive.append(f"{ob.name}: {r.get('detail', st)}")
             if len(samples) < 6:
                 samples.append({"obligation": ob.name, "engine": "B", "args": ob.args, "status": st,
-                                "detail": str(r.get("detail"))[:300]})
+                                "detail": str(r.get("detail"))[:400], "encoded_from_source": r.get("encoded"),
+                                "notes": r.get("notes"), "queries": r.get("queries"), "solver_s": r.get("solver_s")})
             continue
         # CrossHair conditions
         if ob.expect == "violate":
